@@ -76,6 +76,7 @@ RULES = {
     "C19.handler": "every except clause in the config parser catches an exception its guarded statements can raise per the API table, and no table exception escapes uncaught from a guarded conversion",
     "C19.scope": "no name resolving to a Python builtin is subscripted or used as data",
     "C19.postcond": "_parse_config_params: the sum and length checks raise ConfigError and dominate the return; phases go through _parse_phase per element into a tuple",
+    "C19.defaults-all-paths": "a statement that gives an optional key its default (d[k] = d.get(k, default) / setdefault) dominates every return of its function",
     "C19.output-kept": "defaults computed for the [output] table are stored in the returned configuration even when the table is omitted",
 }
 
@@ -170,12 +171,15 @@ def config(ctx, I):
         key_defined(ctx, mod, name, fn, param_fields)
         handlers(ctx, mod, name, fn, I)
         scope(ctx, mod, name, fn)
+    for name, fn in fns.items():
+        defaults_all_paths(ctx, mod, name, fn)
     kinds(ctx, mod, fns, I, param_fields)
     postcond(ctx, mod, fns)
     output_kept(ctx, mod, fns)
     ctx.floor("C19.key-defined", 10)
     ctx.floor("C19.handler", 4)
     ctx.floor("C19.scope", 6)
+    ctx.floor("C19.defaults-all-paths", 5)
 
 
 def L(ctx, mod, node):
@@ -246,6 +250,24 @@ def key_defined(ctx, mod, fname, fn, param_fields):
                 ok, why = True, "stored earlier in parse_config"
             ctx.ob("C19.key-defined", f"{fname}:{d}[{k}]", ok, why if ok else f"read of optional key {k!r} of `{d}` is not guarded: KeyError when the key is omitted", L(ctx, mod, sub),
                    key=("C19.key-defined", fname, d, k, ast.unparse(s)[:60]))
+
+
+def defaults_all_paths(ctx, mod, fname, fn):
+    cfg = flow.CFG(fn)
+    idom = cfg.dominators()
+    rets = [n for n, s in cfg.stmt.items() if isinstance(s, ast.Return)] or [cfg.exit]
+    for n, s in cfg.stmt.items():
+        if not isinstance(s, ast.Assign) or len(s.targets) != 1:
+            continue
+        t = s.targets[0]
+        v = s.value
+        if isinstance(t, ast.Subscript) and isinstance(t.value, ast.Name) and t.value.id in TOML_DICTS and isinstance(t.slice, ast.Constant) \
+                and isinstance(v, ast.Call) and isinstance(v.func, ast.Attribute) and v.func.attr == "get" and flow.dotted(v.func.value) == t.value.id \
+                and v.args and isinstance(v.args[0], ast.Constant) and v.args[0].value == t.slice.value and len(v.args) == 2:
+            key = t.slice.value
+            missing = [r for r in rets if not cfg.dominates(n, r, idom)]
+            ctx.ob("C19.defaults-all-paths", f"{fname}:{t.value.id}[{key}]", not missing,
+                   f"the default of optional key {key!r} is not applied on the path to the return at line(s) {[getattr(cfg.stmt[r], 'lineno', '?') for r in missing]}", L(ctx, mod, s))
 
 
 def flow_exits(body):
